@@ -67,13 +67,37 @@ func reachableFrom(p *Prog, roots []*ssa.Function, scope func(*ssa.Function) boo
 		fn := work[len(work)-1]
 		work = work[:len(work)-1]
 		var callees []*ssa.Function
+		precise := p.preciseCallbackLibs()
 		if n := p.CG.Nodes[fn]; n != nil {
 			for _, e := range n.Out {
+				// inside a library function whose callbacks are known at every call site of the
+				// program (slices.IndexFunc(xs, pred) ...): the call of its function parameter goes
+				// to the function handed over at the call site, which is followed from there; the
+				// context-insensitive graph would connect every caller with every other caller's
+				// callback
+				if precise[fn] && e.Site != nil && !e.Site.Common().IsInvoke() {
+					if par, ok := e.Site.Common().Value.(*ssa.Parameter); ok && par.Parent() == fn {
+						continue
+					}
+				}
 				callees = append(callees, e.Callee.Func)
 			}
 		}
 		for _, a := range fn.AnonFuncs {
 			callees = append(callees, a)
+		}
+		if p.InRepo(fn) {
+			eachCall(fn, func(c ssa.CallInstruction) {
+				lib := c.Common().StaticCallee()
+				if lib == nil || !precise[lib] {
+					return
+				}
+				for _, a := range c.Common().Args {
+					if _, isFn := a.Type().Underlying().(*types.Signature); isFn {
+						callees = append(callees, p.funcValueTargets(a, 2)...)
+					}
+				}
+			})
 		}
 		for _, c := range callees {
 			if c == nil || c.Blocks == nil {
@@ -336,8 +360,21 @@ func indexGuarded(in ssa.Instruction, s, idx ssa.Value) bool {
 	}
 	// i := search(s, ...) with i >= 0: the helper returns a range index over the slice it was
 	// given (or a negative constant), and the slice it was given is the one indexed here
-	if call, ok := idx.(*ssa.Call); ok && call.Call.StaticCallee() != nil && curProg != nil && curProg.InRepo(call.Call.StaticCallee()) {
-		if k := rangeIndexResultOf(call.Call.StaticCallee()); k >= 0 && k < len(call.Call.Args) && sameValue(call.Call.Args[k], s) {
+	if call, ok := idx.(*ssa.Call); ok && call.Call.StaticCallee() != nil && curProg != nil {
+		k := -1
+		if curProg.InRepo(call.Call.StaticCallee()) {
+			k = rangeIndexResultOf(call.Call.StaticCallee())
+		} else {
+			// slices.Index / slices.IndexFunc: -1 or an index of their first argument
+			o := call.Call.StaticCallee()
+			if og := o.Origin(); og != nil {
+				o = og
+			}
+			if o.Pkg != nil && o.Pkg.Pkg.Path() == "slices" && (o.Name() == "Index" || o.Name() == "IndexFunc") {
+				k = 0
+			}
+		}
+		if k >= 0 && k < len(call.Call.Args) && sameValue(call.Call.Args[k], s) {
 			for _, ct := range dominatingConds(blk) {
 				bo, ok := ct.Cond.(*ssa.BinOp)
 				if !ok || bo.X != idx {
@@ -976,4 +1013,70 @@ func rangeIndexResultOf(fn *ssa.Function) int {
 		return k
 	}
 	return -1
+}
+
+// preciseCallbackLibs: library functions with function-typed parameters all of whose call sites in
+// the program hand over function values that funcValueTargets resolves.
+var preciseLibCache = map[*Prog]map[*ssa.Function]bool{}
+
+func (p *Prog) preciseCallbackLibs() map[*ssa.Function]bool {
+	if m, ok := preciseLibCache[p]; ok {
+		return m
+	}
+	good := map[*ssa.Function]bool{}
+	badLib := map[*ssa.Function]bool{}
+	for fn := range p.Funcs {
+		if !p.InRepo(fn) || fn.Blocks == nil {
+			continue
+		}
+		eachCall(fn, func(c ssa.CallInstruction) {
+			lib := c.Common().StaticCallee()
+			if lib == nil || p.InRepo(lib) || lib.Blocks == nil {
+				return
+			}
+			has := false
+			for _, a := range c.Common().Args {
+				if _, isFn := a.Type().Underlying().(*types.Signature); !isFn {
+					continue
+				}
+				has = true
+				if k, isConst := a.(*ssa.Const); isConst && k.IsNil() {
+					continue
+				}
+				if len(p.funcValueTargets(a, 2)) == 0 {
+					badLib[lib] = true
+				}
+			}
+			if has {
+				good[lib] = true
+			}
+		})
+	}
+	for l := range badLib {
+		delete(good, l)
+	}
+	// only functions that call their callbacks themselves (no hand-over to other library code,
+	// no storing): every use of a function parameter is being called
+	for l := range good {
+		ok := true
+		for _, par := range l.Params {
+			if _, isFn := par.Type().Underlying().(*types.Signature); !isFn {
+				continue
+			}
+			for _, ref := range *par.Referrers() {
+				ci, isCall := ref.(ssa.CallInstruction)
+				if _, dbg := ref.(*ssa.DebugRef); dbg {
+					continue
+				}
+				if !isCall || ci.Common().Value != ssa.Value(par) {
+					ok = false
+				}
+			}
+		}
+		if !ok {
+			delete(good, l)
+		}
+	}
+	preciseLibCache[p] = good
+	return good
 }
